@@ -272,6 +272,19 @@ def ringOrdered (L : Int) (rd : RegionData) (l : Loc) : Bool :=
     !a.isEmpty && !b.isEmpty && a.all (onPre L rd) && ascParts a.reverse && ascParts b.reverse
   | _ => false
 
+/-- a leader / tail location of a precursor peptide as they come: no part empty, all parts inside the region, in
+    transcription order — ascending or descending when the region does not run over the origin or all parts lie on
+    one side of it; `ringOrdered` when the origin lies inside the leader / tail -/
+def motifOrdered (L : Int) (rd : RegionData) (l : Loc) : Bool :=
+  l.parts.all (fun p => decide (p.lo < p.hi)) &&
+  if rd.crossesOrigin then
+    decide (0 < rd.end) && decide (rd.end ≤ rd.start) && decide (rd.start < L) &&
+    (ringOrdered L rd l ||
+      ((l.parts.all (onPre L rd) || l.parts.all (onPost rd)) && (ascParts l.parts || ascParts l.parts.reverse)))
+  else
+    l.parts.all (fun p => decide (rd.start ≤ p.lo) && decide (p.hi ≤ rd.end)) &&
+      (ascParts l.parts || ascParts l.parts.reverse)
+
 def partsOK (L : Int) (l : Loc) : Bool :=
   !l.parts.isEmpty && l.parts.all fun p => decide (0 ≤ p.lo) && decide (p.lo < p.hi) && decide (p.hi ≤ L)
 
